@@ -27,6 +27,7 @@ func sharedTree() *tree.Node {
 			tree.File("a.txt", 10, 14),
 			tree.File("b.txt", 3000, 15),
 			tree.Dir("sub", tree.File("c.txt", 77, 16)),
+			tree.File("caf\xe9.iso", 20, 17), // a name that is not valid UTF-8: names are byte strings on the wire
 		),
 		tree.Dir("emptydir"),
 	)
